@@ -5,7 +5,7 @@ ID = "C05"
 GEN = "c05"
 HARNESS_TEST = "TestC05"
 COQ_MODEL = ["C05/Check.v", "Gen/C05Facts.v"]
-COQ_PROOF_DEPS = ["C05/Proofs.v", "C05/ProofsNonvacuous.v"]
+COQ_PROOF_DEPS = ["C05/Proofs.v", "C05/ProofsBundle.v", "C05/ProofsNonvacuous.v"]
 COQ_OBLIG = ["C05/Property.v", "Gen/C05Oblig.v"]
 CASES_HEADER = "Require Import Nib.C05.Model Nib.C05.Spec Nib.C05.Check."
 CASE_TYPE = "case"
@@ -262,7 +262,9 @@ MANIFEST = {
                  "C05_net_payment_bounds (prepay - refund, both truncated to unibi, is within 1 unibi of gasUsed x effective price, "
                  ">= 0 and <= prepay), C05_supply_never_increases (any history; floor-sum argument over the commit model with "
                  "mint/burn as in SetAccBalance), C05_closed_system, C05_supply_exact_when_whole_unibi, C05_payer_equals_collector, "
-                 "C05_failed_tx_changes_only_fee_and_nonce, all obtained from C05_deliver_satisfies_P over a ledger model of ante + "
+                 "C05_failed_tx_changes_only_fee_and_nonce, C05_bundle_satisfies_PB (ONE Cosmos tx with any number of MsgEthereumTx of any "
+                 "signers: every signer pays for ITS OWN messages within 1 unibi per message, collector gain = sum of the signers' "
+                 "payments), all obtained from C05_deliver_satisfies_P over a ledger model of ante + "
                  "msg server + commit + refund. Constants and the provenance of prepayment/refund are re-extracted from /repo on "
                  "every run (Gen/C05Facts.v); the model is compared with real DeliverTx measurements (supply, 9 balances, GasUsed) "
                  "and the proved-sound checker Pb is evaluated on those measurements."),
